@@ -163,6 +163,16 @@ func runC13(r *mon.Run) {
 			return
 		}
 		keepSig, keepMsg := append([]byte{}, sig...), append([]byte{}, msg...)
+		if i%2 == 1 {
+			// hostile layout: message and signature as sub-slices of one buffer
+			hl, hcheck := hostileLayout(msg, sig)
+			if g := k.Verify(hl[0], hl[1]); g != want {
+				w.Fail("c13/Verify:layout/"+cl, fmt.Sprintf("SchnorrPublicKey.Verify [%s] = %v with message and signature in one buffer, BIP-340 Verify = %v", cl, g, want), "pk", usePk, "msg", msg, "sig", sig)
+			}
+			if m := hcheck(); m != "" {
+				w.Fail("c13/Verify:buffer", "Verify wrote to its inputs or beyond them: "+m)
+			}
+		}
 		if g := k.Verify(msg, sig); g != want {
 			w.Fail("c13/Verify/"+cl, fmt.Sprintf("SchnorrPublicKey.Verify [%s] = %v, BIP-340 Verify = %v", cl, g, want), "pk", usePk, "msg", msg, "sig", sig)
 		}
